@@ -80,7 +80,7 @@ def rank_deficient(A):
     return np.linalg.matrix_rank(A) < min(A.shape)
 
 
-def reference(case, X, A, y, y_err, spec, th_cov, th_mean):
+def reference(case, X, A, y, y_err, spec, th_cov, th_mean, use_mp=True):
     p, m = A.shape[1], A.shape[0]
     K = rk.ref_build(spec, X, th_cov)
     mean = rk.ref_mean(case["mean"], X, X, th_mean)
@@ -92,7 +92,7 @@ def reference(case, X, A, y, y_err, spec, th_cov, th_mean):
     if not np.isfinite(kappa) or kappa > 1e9:
         return None, kappa
     r = y - A @ mean
-    if max(p, m) <= 10:
+    if use_mp and max(p, m) <= 10:
         Km, Am = mp.matrix(K.tolist()), mp.matrix(A.tolist())
         Gm = Am * Km * Am.T + mp.matrix(S.tolist())
         beta = mp.lu_solve(Gm, mp.matrix(r.tolist()) if False else (mp.matrix(y.tolist()) - Am * mp.matrix(mean.tolist())))
@@ -253,9 +253,92 @@ def body_gradient(case, ctx):
     ctx.event("mean=" + case["mean"])
 
 
+# ------------------------------------------------------------------ histories on one inverter object
+@st.composite
+def history_cases(draw):
+    base = draw(cases(8))
+    n_cov, n_mean = len(base["theta_u"]), len(base["mean_u"])
+    alts = []
+    for _ in range(draw(st.integers(1, 3))):
+        what = draw(st.sampled_from(["cov", "cov", "mean", "both"]))
+        tu = [draw(gc.unit) for _ in range(n_cov)] if what in ("cov", "both") else list(base["theta_u"])
+        if what == "cov" and draw(st.booleans()):   # change a single covariance hyper-parameter only
+            keep = draw(st.integers(0, n_cov - 1))
+            tu = [v if i == keep else w for i, (v, w) in enumerate(zip(tu, base["theta_u"]))]
+        mu = [draw(gc.unit) for _ in range(n_mean)] if what in ("mean", "both") else list(base["mean_u"])
+        alts.append({"theta_u": tu, "mean_u": mu})
+    base["alts"] = alts
+    base["ops"] = draw(st.lists(st.tuples(st.sampled_from(["posterior", "mean", "evidence", "evidence-gradient"]),
+                                          st.integers(0, len(alts)), st.sampled_from(["fresh", "shared", "shared"])),
+                                min_size=2, max_size=8))
+    return base
+
+
+def body_history(case, ctx):
+    """every answer of a long-lived inverter is the closed form for the hyper-parameters passed *in that call*, whatever was asked
+    before and however the caller re-uses its hyper-parameter array"""
+    X, A, y, y_err, spec, _, _ = build(case)
+    _, _, xs, ys = gc.arrays(case)
+    n_mean = rk.mean_n_params(case["mean"], case["d"])
+    thetas, refs = [], []
+    for alt in [{"theta_u": case["theta_u"], "mean_u": case["mean_u"]}] + case["alts"]:
+        sub = dict(case)
+        sub.update(alt)
+        th_cov = gc.theta_from_unit(spec, sub, X, ys)
+        th_mean = gc.mean_theta(sub, X, ys * np.array(case["truth"]), ys)[:n_mean]
+        ref, kappa = reference(sub, X, A, y, y_err, spec, th_cov, th_mean, use_mp=False)
+        if ref is None or kappa > 1e7:
+            raise Inconclusive("ill-conditioned (kappa > 1e7)")
+        thetas.append(np.concatenate([th_mean, th_cov]))
+        refs.append((ref, kappa, y - A @ ref["mean"]))
+    inv = make(case, X, A, y, y_err, spec)
+    tag = shape_tag(A)
+    buf = thetas[0].copy()
+    last_shared, switched = None, 0
+    for step, (what, j, how) in enumerate(case["ops"]):
+        ref, kappa, resid = refs[j]
+        f = 1e-8 + 1000 * kappa * EPS
+        if how == "shared":
+            buf[:] = thetas[j]
+            arg = buf
+            switched += last_shared is not None and last_shared != j
+            last_shared = j
+        else:
+            arg = thetas[j].copy()
+        dK = np.sqrt(np.maximum(np.diag(ref["K"]), 1e-300))
+        u = np.abs(A.T @ (resid / y_err**2))
+        tol_mu = f * (ref["scale_mu"] + dK * float(dK @ u))
+        where = f"call {step} ({what}, hyper-parameter set {j} passed as a {how} array) on A {A.shape}, {rk.describe(spec)}, {case['mean']}"
+        with np.errstate(all="ignore"):
+            if what == "posterior":
+                mu, Sig = (np.asarray(a, dtype=float) for a in inv.calculate_posterior(arg))
+                e = np.max(np.abs(mu - ref["mu"]) / tol_mu)
+                ec = np.max(np.abs(Sig - ref["Sigma"]) / (f * np.outer(dK, dK)))
+                ctx.ratio("history", max(e, ec), 1.0)
+                if not (e <= 1 and ec <= 1):
+                    raise Violation(f"history:{what}", f"{where}: posterior mean / covariance off by {e:.3g} / {ec:.3g} tolerances from the closed form")
+            elif what == "mean":
+                mu = np.asarray(inv.calculate_posterior_mean(arg), dtype=float)
+                e = np.max(np.abs(mu - ref["mu"]) / tol_mu)
+                ctx.ratio("history", e, 1.0)
+                if not e <= 1:
+                    raise Violation(f"history:{what}", f"{where}: mean-only path off by {e:.3g} tolerances from the closed form")
+            else:
+                v = float(inv.marginal_likelihood(arg)) if what == "evidence" else float(inv.marginal_likelihood_gradient(arg)[0])
+                tl = f * ref["scale_lml"]
+                ctx.ratio("history", abs(v - ref["lml"]), tl)
+                if not abs(v - ref["lml"]) <= tl:
+                    raise Violation(f"history:{what}", f"{where}: evidence {v!r} vs closed form {ref['lml']!r} (tol {tl:.3g})")
+    ctx.nontrivial(switched >= 1)
+    ctx.event(f"shared-switches={min(switched, 3)}")
+    ctx.event("shape=" + tag)
+
+
 SUBCHECKS = [
     Sub("posterior", lambda t: cases(14 if t == "thorough" else 10), body_posterior, quick=1000, thorough=40000,
         shards_quick=10, shards_thorough=16, rule="(m != p or rank-deficient A) with >= 3 hyper-parameters, kappa <= 1e9"),
     Sub("gradient", lambda t: cases(10), body_gradient, quick=600, thorough=20000, shards_quick=6, shards_thorough=16,
         rule="(m != p or rank-deficient A) with >= 3 hyper-parameters, kappa <= 1e5"),
+    Sub("history", lambda t: history_cases(), body_history, quick=600, thorough=20000, shards_quick=6, shards_thorough=16,
+        rule="the same caller-owned array re-used in place for >= 2 different hyper-parameter sets on one inverter"),
 ]
